@@ -1,4 +1,5 @@
 import QuantemModel.Lemmas.DatasetAbs
+import QuantemModel.Props.C03
 /-!
 C03 — growth round 6 (listed in `EXTRA_PROPS` of harness/props/c03.py).
 
@@ -76,6 +77,80 @@ theorem run_forget (ops : List (Op × Bool)) :
       obtain ⟨d', r⟩ := q
       simp only [mapOk_ok, forgetRes]
       cases follow <;> cases r <;> simpa [forgetHist] using ih _
+
+
+/-- **every history, seen through its skeleton**: for a coherent start and well-formed calls, class, shape, dtype
+kind, origin, sampling and units after the history are exactly those the value-free skeleton machine computes
+(`run_forget`), and the dataset is coherent (`inv_run`) — raising calls included. -/
+theorem skeleton_history_spec (ops : List (Op × Bool)) (hw : ∀ p ∈ ops, p.1.WF) (d : Ds) (hi : Inv d) :
+    Inv (run d ops) ∧ Inv (run (forget d) (forgetHist ops)) ∧
+    (run d ops).cls = (run (forget d) (forgetHist ops)).cls ∧
+    (run d ops).shape = (run (forget d) (forgetHist ops)).shape ∧
+    (run d ops).kind = (run (forget d) (forgetHist ops)).kind ∧
+    (run d ops).origin = (run (forget d) (forgetHist ops)).origin ∧
+    (run d ops).sampling = (run (forget d) (forgetHist ops)).sampling ∧
+    (run d ops).units = (run (forget d) (forgetHist ops)).units := by
+  have h := run_forget ops d
+  have hinv := inv_run ops hw d hi
+  refine ⟨hinv, ?_, ?_, ?_, ?_, ?_, ?_, ?_⟩
+  · rw [← h]
+    obtain ⟨h1, h2, h3, h4, _⟩ := hinv
+    exact ⟨h1, h2, h3, h4, by intro dat hd; simp at hd⟩
+  all_goals rw [← h]
+
+/-! ### calls that change nothing (the candidates for a fast path) -/
+
+/-- **padding that adds nothing is the identity on shape and calibration**: `pad(output_shape=o)` with every
+`o[i] ≤ shape[i]` (the current shape in particular), `pad(0)` and `pad((0, 0))`, in place, succeed and leave class,
+shape, dtype kind, origin, sampling, units; on a coherent dataset the copying variant returns exactly the dataset the
+in-place variant produces and leaves the receiver (`inplace_eq_copy`). -/
+theorem pad_noop (d : Ds) (a : PadArg)
+    (ha : (∃ o, a = .outShape o ∧ List.Forall₂ (fun (x : Int) (n : Nat) => x ≤ n) o d.shape) ∨
+      a = .width (.all 0) ∨ a = .width (.pair 0 0)) :
+    ∃ r, step d (.pad a true) = .ok (r, none) ∧ forget r = forget d ∧
+      (Inv d → step d (.pad a false) = .ok (d, some r)) := by
+  have hw : ∃ w, padWidthsOf d.shape a = .ok w ∧ padShape d.shape w = d.shape := by
+    rcases ha with ⟨o, rfl, ho⟩ | rfl | rfl
+    · refine ⟨List.zipWith padWidths o d.shape, ?_, padShape_le ho⟩
+      simp [padWidthsOf, ho.length_eq]
+    · exact ⟨List.replicate d.shape.length (0, 0), by simp [padWidthsOf], padShape_zero _⟩
+    · exact ⟨List.replicate d.shape.length (0, 0), by simp [padWidthsOf, nonneg2], padShape_zero _⟩
+  obtain ⟨w, hw1, hw2⟩ := hw
+  have hs : step d (.pad a true) = .ok ({ d with shape := padShape d.shape w, data := padData d w }, none) := by
+    simp [step, pad, hw1]
+  refine ⟨_, hs, ?_, ?_⟩
+  · simp [forget, hw2]
+  · intro hi
+    have := (inplace_eq_copy hi (.pad a true) (by simp [Op.inplace?])).2 _ _ |>.mp hs
+    exact this.2
+
+/-- **binning by 1 is the identity on shape and calibration**: `bin(1, axes)` for any valid `axes` (sum or mean, in
+place) succeeds and leaves class, shape, origin, sampling and units; only the dtype kind follows `binKind` (a boolean
+array becomes an integer one under `np.sum`, integers become floats under `mean`). -/
+theorem bin_by_one_noop (d : Ds) (ax : AxesArg) (mean : Bool) {axs : List Nat} (h : axesList d.ndim ax = .ok axs) :
+    ∃ r, step d (.bin (.one 1) ax mean false true) = .ok (r, none) ∧
+      forget r = { forget d with kind := binKind d.kind mean } ∧
+      (Inv d → step d (.bin (.one 1) ax mean false false) = .ok (d, some r)) := by
+  have hv : ∀ p ∈ dictZip (axs.map Int.ofNat) (List.replicate axs.length (1 : Int)), p.2 = 1 := by
+    intro p hp
+    have := dictZip_vals _ _ p hp
+    simpa using (List.eq_of_mem_replicate this)
+  have hs : ∃ r, step d (.bin (.one 1) ax mean false true) = .ok (r, none) ∧
+      forget r = { forget d with kind := binKind d.kind mean } := by
+    refine ⟨{ d with
+        shape := binShape d.shape (facsPerAxis d.ndim (dictZip (axs.map Int.ofNat) (List.replicate axs.length (1 : Int)))),
+        data := binData d (facsPerAxis d.ndim (dictZip (axs.map Int.ofNat) (List.replicate axs.length (1 : Int)))) mean
+          (prod ((dictZip (axs.map Int.ofNat) (List.replicate axs.length (1 : Int))).map fun p => p.2.toNat)),
+        kind := binKind d.kind mean,
+        origin := (binCalib d.origin d.sampling (dictZip (axs.map Int.ofNat) (List.replicate axs.length (1 : Int)))).1,
+        sampling := (binCalib d.origin d.sampling (dictZip (axs.map Int.ofNat) (List.replicate axs.length (1 : Int)))).2 }, ?_, ?_⟩
+    · simp [step, bin, h, binFactors]
+    · simp only [forget, facsPerAxis_ones _ _ hv, binCalib_ones _ _ _ hv, Ds.ndim, binShape_ones]
+  obtain ⟨r, hs, hf⟩ := hs
+  refine ⟨r, hs, hf, ?_⟩
+  intro hi
+  have := (inplace_eq_copy hi (.bin (.one 1) ax mean false true) (by simp [Op.inplace?])).2 _ _ |>.mp hs
+  exact this.2
 
 /-! ### negative steps, reversed slices, last index -/
 
@@ -165,5 +240,10 @@ example : (run (forget exA) (forgetHist [(.getitem [Item.full, .slice none none 
 example : (0 : Nat) < 5 ∧ (0 : Int) < 2 := by decide
 example : selOf 5 (.slice none none (some (-2))) = .ok (.rng 4 (-2) 3) := rfl
 example : selOf 0 (.slice none none (some (-1))) = .ok (.rng (-1) (-1) 0) := rfl
+
+-- calls that change nothing: hypotheses of `pad_noop` / `bin_by_one_noop` are satisfiable
+example : List.Forall₂ (fun (x : Int) (n : Nat) => x ≤ n) [2, 1] exA.shape := by
+  refine .cons (by decide) (.cons (by decide) .nil)
+example : axesList exA.ndim (.many [-1]) = .ok [1] := rfl
 
 end QuantemModel.Props.C03
